@@ -7,7 +7,7 @@ checks = json.load(open(os.path.join(V, "checks.json")))
 na = json.load(open(os.path.join(V, "not_applicable.json")))
 m = {
  "version": 1,
- "setup_cmd": "true",
+ "setup_cmd": "cd /verif/replay && ./run.sh codec-roundtrip all 10 || true",
  "hooks": {"guard": "none",
            "enable": "no hooks: contracts are woven into text extracted from /repo's working tree on every run; /repo carries only unguarded fix: commits",
            "baseline_off_cmd": "cd /repo && cargo nextest run --workspace --no-fail-fast --test-threads 8 --offline || cargo test --workspace --no-fail-fast --offline",
